@@ -14,6 +14,7 @@
 //   scalars      20 int 21 double 22 long
 //   optionals    30 maybe<ndarray int> 31 maybe<int> 32 maybe<list<int>> 33 maybe<ndarray double> 34 maybe<reshape view>
 //   eithers      40 either<int, ndarray int>   42 either<double, ndarray double>
+//                43 either<float, double>      44 either<ndarray double, dynamic_ndarray double>   (alternatives of the same concept)
 //   tuples       50 tuple<int, ndarray int>    51 tuple<ndarray int, ndarray int> (data = both halves)  52 tuple<double, ndarray double>
 #ifndef VERIF_C18_CMP_HPP
 #define VERIF_C18_CMP_HPP
@@ -207,6 +208,24 @@ namespace c18
             } else {
                 if (s.shape.empty() || !full) return false;
                 either_t x{make_nd<T>(s)};
+                f(x);
+            }
+        } else if constexpr (K == 43) {
+            using either_t = nmtools_either<float, double>;
+            if (s.data.empty()) return false;
+            if (s.flag == 0) { either_t x{(float)s.data[0]}; f(x); }
+            else             { either_t x{(double)s.data[0]}; f(x); }
+        } else if constexpr (K == 44) {
+            using either_t = nmtools_either<vh::dyn_t<double>, na::dynamic_ndarray<double>>;
+            if (s.shape.empty() || !full) return false;
+            if (s.flag == 0) {
+                either_t x{make_nd<double>(s)};
+                f(x);
+            } else {
+                na::dynamic_ndarray<double> y;
+                y.resize(vh::to_shape(s.shape));
+                for (size_t i = 0; i < n; i++) y.data[i] = (double)s.data[i];
+                either_t x{y};
                 f(x);
             }
         } else if constexpr (K == 50 || K == 52) {
